@@ -98,6 +98,9 @@ type world struct {
 	crashed     bool
 	rsvMade     int
 	runningSeen int
+	rsvBorn     map[string]*span
+	rsvSpans    map[string][]*span            // group -> lifetimes of its reservation pods
+	runSpans    map[string]map[string][]*span // group -> consumer -> intervals in which it carried the group and was Running
 	rsvLost     map[string]bool
 	bindOK      map[string]bool // consumer -> pods/binding succeeded
 	anoms       []string        // harness self-checks that failed
@@ -112,6 +115,9 @@ type world struct {
 	worldBusy atomic.Int64
 	counters  sync.Map // string -> *atomic.Int64
 }
+
+// span is a closed interval of logical time; To == 0 means "until the end".
+type span struct{ From, To int64 }
 
 type cmObs struct {
 	Pod    string   `json:"pod"`
@@ -189,11 +195,15 @@ func (w *world) spawn(name string, p *proc, worldWork bool, f func(a *actor)) {
 
 // pace is the schedule decision at a client call: nothing, runtime.Gosched(), or a 0-2 ms sleep, drawn from the
 // actor's own PCG stream.
-func (a *actor) pace() {
+func (a *actor) pace(kind string) {
 	if a.rnd == nil {
 		return
 	}
-	switch x := a.rnd.IntN(100); {
+	x := a.rnd.IntN(100)
+	if kind == "create" && x >= 30 {
+		x = 99 // writes that create objects are the longest API calls: sleep in 70% of them
+	}
+	switch {
 	case x < 35:
 	case x < 75:
 		a.gosched++
@@ -235,7 +245,7 @@ func errClass(err error) string {
 func newWorld(plan *Plan) (*world, error) {
 	w := &world{plan: plan, st: store.New(), devs: map[string]map[int]string{}, rsvIdx: map[string]string{}, rsvGroup: map[string]string{},
 		watchers: map[*rsvWatcher]bool{}, bindFail: map[string]int{}, rsvLost: map[string]bool{}, bindOK: map[string]bool{},
-		hist: &history{}, kubRnd: gen.NewRand(plan.Seed, plan.Index, 7)}
+		rsvBorn: map[string]*span{}, rsvSpans: map[string][]*span{}, runSpans: map[string]map[string][]*span{}, hist: &history{}, kubRnd: gen.NewRand(plan.Seed, plan.Index, 7)}
 	w.base = crfake.NewClientBuilder().WithScheme(w.st.Scheme).WithObjectTracker(w.st.Tracker).
 		WithStatusSubresource(&schedulingv1alpha2.BindRequest{}).
 		WithIndex(&v1.Pod{}, "spec.nodeName", func(o client.Object) []string {
@@ -333,6 +343,14 @@ func liveGroups(p *v1.Pod) map[string]bool {
 	return out
 }
 
+// runningGroups: the groups a Running consumer carries.
+func runningGroups(p *v1.Pod) map[string]bool {
+	if p == nil || p.Status.Phase != v1.PodRunning {
+		return map[string]bool{}
+	}
+	return liveGroups(p)
+}
+
 func (w *world) objLabel(obj client.Object, key client.ObjectKey) string {
 	name, ns := key.Name, key.Namespace
 	if obj != nil && name == "" {
@@ -397,7 +415,7 @@ func describeList(list client.ObjectList, opts []client.ListOption) listInfo {
 func (w *world) call(p *proc, kind string, obj string, tg *target, li *listInfo, fn func() error) error {
 	a := w.actor()
 	entry := w.tick()
-	a.pace()
+	a.pace(kind)
 	w.mu.Lock()
 	defer w.mu.Unlock()
 	w.act.Add(1)
@@ -553,6 +571,22 @@ func (w *world) afterPodWrite(a *actor, p *proc, kind string, old, cur *v1.Pod) 
 				w.hist.add(&opRec{Group: g, Kind: "end", Actor: a.name, Pod: ref.Name, Call: now, Ret: now, OK: true, Cause: cause})
 			}
 		}
+		rb, ra := runningGroups(old), runningGroups(cur)
+		for g := range rb {
+			if !ra[g] {
+				if l := w.runSpans[g][ref.Name]; len(l) > 0 && l[len(l)-1].To == 0 {
+					l[len(l)-1].To = now
+				}
+			}
+		}
+		for g := range ra {
+			if !rb[g] {
+				if w.runSpans[g] == nil {
+					w.runSpans[g] = map[string][]*span{}
+				}
+				w.runSpans[g][ref.Name] = append(w.runSpans[g][ref.Name], &span{From: now})
+			}
+		}
 		for g := range after {
 			if !before[g] {
 				if a.reserve == nil || a.reserve.Pod != ref.Name || a.reserve.Group != g {
@@ -606,6 +640,8 @@ func (w *world) afterReservationWrite(a *actor, p *proc, old, cur *v1.Pod, now i
 		w.rsvIdx[cur.Name] = strconv.Itoa(idx)
 		w.rsvGroup[cur.Name] = g
 		w.rsvMade++
+		w.rsvSpans[g] = append(w.rsvSpans[g], &span{From: now})
+		w.rsvBorn[cur.Name] = w.rsvSpans[g][len(w.rsvSpans[g])-1]
 		w.count("reservation_pods_created", 1)
 		if a.reserve != nil && a.reserve.Group == g {
 			a.reserve.CreatedIdx = strconv.Itoa(idx)
@@ -635,6 +671,9 @@ func (w *world) afterReservationWrite(a *actor, p *proc, old, cur *v1.Pod, now i
 			if n == old.Name {
 				delete(w.devs[node], i)
 			}
+		}
+		if sp := w.rsvBorn[old.Name]; sp != nil {
+			sp.To = now
 		}
 		w.count("reservation_pods_deleted", 1)
 	}
